@@ -41,7 +41,8 @@ checks["C01"] = dict(
                H("HarnessCrash", crash(1, 2, opset=1, crashkind=1, usability=0), shards=8, depth=8),
                H("HarnessCrash", crash(1, 1, armopen=1, opset=1, seg=64), shards=4, depth=8),
                H("HarnessCrash", crash(1, 1, pre=1, seg=256, opset=1), shards=6, depth=8),
-               H("HarnessCrash", crash(1, 1, pre=2, seg=128, opset=4), shards=6, depth=8)],
+               H("HarnessCrash", crash(1, 1, pre=2, seg=128, opset=4), shards=6, depth=8),
+               H("HarnessCrash", crash(1, 2, opset=1, crashkind=1, seg=64, usability=0), shards=8, depth=8)],
         thorough=[H("HarnessCrash", crash(2, 1), shards=42, depth=8, timeout="40m"),
                   H("HarnessCrash", crash(2, 1, seg=64), shards=42, depth=8, timeout="40m"),
                   H("HarnessCrash", crash(1, 2, armopen=1, opset=3), shards=56, depth=8, timeout="60m"),
@@ -77,13 +78,15 @@ checks["C02"] = dict(
 checks["C03"] = dict(
     runs=dict(
         quick=[H("HarnessCrash", crash(2, 1, seg=64, armopen=1, opset=1), shards=14, depth=8),
-               H("HarnessCrash", crash(1, 1, pre=1, seg=128, armopen=1, opset=4), shards=6, depth=8)],
+               H("HarnessCrash", crash(1, 1, pre=1, seg=128, armopen=1, opset=4), shards=6, depth=8),
+               H("HarnessCrash", crash(1, 2, opset=1, crashkind=1, seg=64), shards=8, depth=8)],
         thorough=[H("HarnessCrash", crash(2, 1, seg=64, armopen=1), shards=42, depth=8, timeout="40m"),
+                  H("HarnessCrash", crash(2, 2, opset=1, crashkind=1, seg=64), shards=42, depth=8, timeout="60m"),
                   H("HarnessCrash", crash(2, 1, seg=100, armopen=1), shards=42, depth=8, timeout="40m"),
                   H("HarnessCrash", crash(1, 2, armopen=1, opset=3, seg=64), shards=56, depth=8, timeout="60m"),
                   H("HarnessCrash", crash(1, 2, opset=1, crashkind=1, armopen=1), shards=42, depth=8, timeout="40m")]),
     required_reach=["crash-verified"],
-    bounds=dict(quick="every crash point of a first-ever Open and of K=2 appends with one entry per segment (every append seals and rotates: all points between the sealing append and the rotation's metadata commit, rotation pending or run); a tail truncation (ForceSeal) with crash points inside Open; after each recovery: append at Last+1, stable Set, head truncation, no-op truncation, close and reopen must succeed and be reflected",
+    bounds=dict(quick="every crash point of a first-ever Open and of K=2 appends with one entry per segment (every append seals and rotates: all points between the sealing append and the rotation's metadata commit, rotation pending or run); a tail truncation (ForceSeal) with crash points inside Open; a process crash inside a sealing append followed by a restart and a power loss (first batch of a segment that also seals it, torn); after each recovery: append at Last+1, stable Set, head truncation, no-op truncation, close and reopen must succeed and be reflected",
                 thorough='adds DeleteRange and batches of two, 2 entries per segment, a crash inside recovery (two epochs), process crash + power loss with crash points inside Open'),
     assumptions=CRASH_ASSUME,
     outside=["creation of the real bbolt file (safeInitBoltDB) - covered at call level by C07", "more than 2 crash epochs"],
@@ -127,13 +130,15 @@ checks["C05"] = dict(
     runs=dict(
         quick=[H("HarnessSeq", {"K": 2, "bmax": 100}, shards=4, depth=4),
                H("HarnessSeq", {"K": 3, "bmax": 100, "ops": 4}, shards=14, depth=5),
-               H("HarnessSeq", {"K": 2, "bmax": 100, "seg": 64}, shards=4, depth=4)],
+               H("HarnessSeq", {"K": 2, "bmax": 100, "seg": 64}, shards=4, depth=4),
+               H("HarnessSeq", {"K": 3, "bmax": 1, "seg": 100, "rotmode": 1, "ops": 4}, shards=14, depth=5)],
         thorough=[H("HarnessSeq", {"K": 3, "bmax": 100}, shards=28, depth=5),
+                  H("HarnessSeq", {"K": 4, "bmax": 1, "seg": 100, "rotmode": 1, "ops": 4}, shards=28, depth=6, timeout="30m"),
                   H("HarnessSeq", {"K": 3, "bmax": 100, "seg": 64}, shards=28, depth=5),
                   H("HarnessSeq", {"K": 2}, shards=28, depth=5, timeout="30m"),
                   H("HarnessSeq", {"K": 4, "bmax": 100, "seg": 100, "ops": 4}, shards=56, depth=6, timeout="40m")]),
     required_reach=["seq-done", "append1", "append2", "delete", "reopen", "bad-append", "probe-present", "probe-absent"],
-    bounds=dict(quick='all sequences of K<=2 operations from {append 1, append 2, bad append (non-contiguous / internally non-consecutive, offending index 64-bit symbolic), DeleteRange(min,max), Close+Open} with 256- and 64-byte segments, and all sequences of K=3 without the bad append; start index symbolic in [1,100], min/max/probe index unconstrained 64-bit; Term<128, payload 0..1 bytes',
+    bounds=dict(quick='all sequences of K<=2 operations from {append 1, append 2, bad append (non-contiguous / internally non-consecutive, offending index 64-bit symbolic), DeleteRange(min,max), Close+Open} with 256- and 64-byte segments, and all sequences of K=3 without the bad append; start index symbolic in [1,100], min/max/probe index unconstrained 64-bit; Term<128, payload 0..1 bytes; plus K=3 from start index 1 with the background rotation left pending or run after each call (so Close can meet a pending rotation and the next Open completes it)',
                 thorough='K=3 with the full alphabet, 64-byte segments, start index over the whole 64-bit range (all varint widths) with K=2, K=4 without bad appends'),
     assumptions=COMMON_ASSUME + ["appended indexes do not wrap (start index <= 2^64-17)"],
     outside=["sequences longer than K", "index wrap at 2^64"],
@@ -161,7 +166,8 @@ checks["C08"] = dict(
 
 checks["C10"] = dict(
     runs=dict(
-        quick=[H("HarnessFault", {"K": 2, "F": 1}, shards=14, depth=7)],
+        quick=[H("HarnessFault", {"K": 2, "F": 1}, shards=14, depth=7),
+               H("HarnessFault", {"K": 2, "F": 1, "pre": 2, "seg": 256}, shards=14, depth=7)],
         thorough=[H("HarnessFault", {"K": 2, "F": 1}, shards=28, depth=7),
                   H("HarnessFault", {"K": 2, "F": 1, "seg": 64}, shards=28, depth=7, timeout="30m"),
                   H("HarnessFault", {"K": 2, "F": 2}, shards=56, depth=7, timeout="40m"),
@@ -177,16 +183,18 @@ checks["C10"] = dict(
 checks["C12"] = dict(
     runs=dict(
         quick=[H("HarnessRoundTrip", {"ndlen": 3, "nelen": 2}, pkg="harness/hcodec", shards=8, depth=4),
+               H("HarnessRoundTrip", {"ndlen": 2, "nelen": 1, "zone": 1}, pkg="harness/hcodec", shards=4, depth=3),
                H("HarnessCodecID", {}, shards=1),
                H("HarnessAlias", {}, shards=1)],
         thorough=[H("HarnessRoundTrip", {"ndlen": 5, "nelen": 5}, pkg="harness/hcodec", shards=28, depth=5, timeout="30m"),
+                  H("HarnessRoundTrip", {"ndlen": 3, "nelen": 2, "zone": 1}, pkg="harness/hcodec", shards=8, depth=3),
                   H("HarnessCodecID", {}, shards=1),
                   H("HarnessAlias", {"big": 1}, shards=1)]),
-    required_reach=["roundtrip-checked", "codec-id-checked", "alias-checked"],
-    bounds=dict(quick="Index, Term 64-bit symbolic (all ten varint widths incl. MaxUint64), Type 8-bit, Data in {nil, empty, 1, 2 bytes}, Extensions in {nil, empty, 1 byte}, AppendedAt symbolic seconds<2^40 and nanoseconds (UTC); custom codec ID 64-bit symbolic; two reads through the pooled buffer",
+    required_reach=["roundtrip-checked", "zoned-time", "codec-id-checked", "alias-checked"],
+    bounds=dict(quick="Index, Term 64-bit symbolic (all ten varint widths incl. MaxUint64), Type 8-bit, Data in {nil, empty, 1, 128 bytes (two-byte length varint)}, Extensions in {nil, empty, 1 byte}, AppendedAt symbolic seconds<2^40 and nanoseconds, in UTC and in a fixed zone with a symbolic offset of -32768..32767 seconds (whole minutes and not: the 15- and 16-byte time encodings); custom codec ID 64-bit symbolic; two reads through the pooled buffer",
                 thorough="Data/Extensions lengths up to 127 and 128 bytes; an entry of 64 KiB +/- 8 across the pooled-buffer boundary"),
-    assumptions=["time.Time.UnmarshalBinary through a contract stub (version 1, 15 bytes, seconds/nanoseconds decoded, zone offset dropped); MarshalBinary interpreted from the standard library source", "nil and empty slices are treated as equal (the codec cannot distinguish them, raft does not need it)"],
-    outside=["zone offsets and monotonic clock readings", "payloads longer than 128 bytes in the symbolic round trip"],
+    assumptions=["time.Time.UnmarshalBinary through a contract stub (version 1 = 15 bytes or version 2 = 16 bytes, seconds/nanoseconds decoded, zone dropped: Equal ignores it); MarshalBinary, FixedZone, In, Zone interpreted from the standard library source; offsets in the minute -1 are excluded (MarshalBinary itself refuses them)", "nil and empty slices are treated as equal (the codec cannot distinguish them, raft does not need it)"],
+    outside=["monotonic clock readings (stripped by MarshalBinary by contract)", "zone offsets beyond 16 bits of seconds", "payloads longer than 128 bytes in the symbolic round trip"],
     level_text="Bounded symbolic execution of the real BinaryCodec and of StoreLogs/GetLog: field values are 64-bit solver variables so every varint boundary is covered by the queries, not sampled",
     level_note="time encoding via contract stub; bounded payload lengths")
 
@@ -227,7 +235,7 @@ checks["C16"] = dict(
     runs=dict(
         quick=[H("HarnessNoFalseAlarm", {}, pkg="harness/hverif", shards=8, depth=4)],
         thorough=[H("HarnessNoFalseAlarm", {}, pkg="harness/hverif", shards=8, depth=4)]),
-    required_reach=["no-false-alarm-checked", "plain", "follower-restart", "head-truncated", "leader-change", "two-checkpoints", "leader-restart"],
+    required_reach=["no-false-alarm-checked", "plain", "follower-restart", "head-truncated", "leader-change", "two-checkpoints", "leader-restart", "truncation-at-range-start"],
     bounds="2..3 entries (symbolic Term, 1..2 symbolic Data bytes) then a checkpoint; every split of the replication into two batches; scenarios: plain, follower restart before the checkpoint, follower head truncation (expects ErrRangeMismatch), leadership change with a conflicting suffix of every length (tail truncation + new leader's entries), two consecutive checkpoints",
     assumptions=VERIF_ASSUME,
     outside=["more than three nodes / more than two checkpoints", "ranges modified while their verification runs"],
@@ -236,10 +244,12 @@ checks["C16"] = dict(
 
 checks["C17"] = dict(
     runs=dict(
-        quick=[H("HarnessDetect", {}, pkg="harness/hverif", shards=4, depth=4), H("HarnessRetry", {}, pkg="harness/hverif"), H("HarnessFnvStep", {"realfnv": 1}, pkg="harness/hverif")],
-        thorough=[H("HarnessDetect", {}, pkg="harness/hverif", shards=4, depth=4), H("HarnessRetry", {}, pkg="harness/hverif"), H("HarnessFnvStep", {"realfnv": 1}, pkg="harness/hverif")]),
-    required_reach=["detect-checked", "in-flight", "at-rest", "retry-checked", "fnv-step-injective"],
-    bounds="range of 2..3 entries + checkpoint; one mutation at every position (first .. the checkpoint's predecessor) of Term (any other 64-bit value), first Data byte (any other value), Type (any other non-checkpoint value) or an added Extensions byte; injected before the follower's StoreLogs (in flight) or on read (at rest); every batch split; plus: a failed write retried unaltered is not blamed; plus: one step of the real fnv1a.AddUint64/AddBytes64 is injective in state and input (bit-precise, z3)",
+        quick=[H("HarnessDetect", {}, pkg="harness/hverif", shards=4, depth=4), H("HarnessRetry", {}, pkg="harness/hverif"), H("HarnessFnvStep", {"realfnv": 1}, pkg="harness/hverif"),
+               H("HarnessNoFalseAlarm", {"scenario0": 3, "scenarios": 1}, pkg="harness/hverif", shards=4, depth=4), H("HarnessNoFalseAlarm", {"scenario0": 6, "scenarios": 1}, pkg="harness/hverif", shards=4, depth=4)],
+        thorough=[H("HarnessDetect", {}, pkg="harness/hverif", shards=4, depth=4), H("HarnessRetry", {}, pkg="harness/hverif"), H("HarnessFnvStep", {"realfnv": 1}, pkg="harness/hverif"),
+                  H("HarnessNoFalseAlarm", {"scenario0": 3, "scenarios": 1}, pkg="harness/hverif", shards=4, depth=4), H("HarnessNoFalseAlarm", {"scenario0": 6, "scenarios": 1}, pkg="harness/hverif", shards=4, depth=4)]),
+    required_reach=["detect-checked", "in-flight", "at-rest", "retry-checked", "fnv-step-injective", "leader-change", "truncation-at-range-start"],
+    bounds="range of 2..3 entries + checkpoint; one mutation at every position (first .. the checkpoint's predecessor) of Term (any other 64-bit value), first Data byte (any other value), Type (any other non-checkpoint value) or an added Extensions byte; injected before the follower's StoreLogs (in flight) or on read (at rest); every batch split; plus: a failed write retried unaltered is not blamed; plus: a follower that truncated a conflicting tail (any suffix length, and exactly the entry its running sum starts at) and stored the new leader's entries unaltered is not blamed for in-flight corruption; plus: one step of the real fnv1a.AddUint64/AddBytes64 is injective in state and input (bit-precise, z3)",
     assumptions=VERIF_ASSUME,
     outside=["length-changing mutations of Data and swapped entries (reduce to hash collisions of different-length sequences: excluded by the ideal-hash axiom, not decided bit-precisely)", "mutation of Index (memstore rejects non-contiguous entries)", "the documented exemption of the bootstrap configuration entry at index 1"],
     level_text="Bounded symbolic execution of the real verifier with one symbolic mutation; the ideal-hash layer decides the protocol logic exactly, the per-step injectivity lemma is discharged on the real fnv1a code",
@@ -320,19 +330,22 @@ checks["C15"] = dict(
     runs=dict(
         quick=[H("HarnessSizes", {"center": 0, "width": 20, "seg": 256}, shards=2, depth=2),
                H("HarnessSizes", {"center": 170, "width": 100, "seg": 256}, shards=6, depth=2),
-               H("HarnessSizes", {"center": 65490, "width": 40, "seg": 1048576}, shards=6, depth=2)],
+               H("HarnessSizes", {"center": 65490, "width": 40, "seg": 1048576}, shards=6, depth=2),
+               H("HarnessSizes", {"center": 67108864, "width": 2, "enc": 1, "shapes": 1, "seg": 256}, heavy=True, timeout="25m", crossval=1)],
         thorough=[H("HarnessSizes", {"center": 0, "width": 64, "seg": 256}, shards=4, depth=2),
+                  H("HarnessSizes", {"center": 67108863, "width": 3, "enc": 1, "shapes": 3, "seg": 256}, heavy=True, timeout="60m", crossval=1),
+                  H("HarnessSizes", {"center": 67108863, "width": 3, "enc": 1, "shapes": 1, "seg": 134217728}, heavy=True, timeout="40m", crossval=1),
                   H("HarnessSizes", {"center": 150, "width": 200, "seg": 256}, shards=10, depth=2),
                   H("HarnessSizes", {"center": 0, "width": 200, "seg": 64}, shards=10, depth=2),
                   H("HarnessSizes", {"center": 65440, "width": 140, "seg": 1048576}, shards=14, depth=2, timeout="30m"),
                   H("HarnessSizes", {"center": 65490, "width": 40, "seg": 65536}, shards=6, depth=2, timeout="30m")]),
-    required_reach=["sizes-checked"],
-    bounds=dict(quick="Data lengths 0..19 (every padding residue), 170..269 with 256-byte segments (segment size +/- frame overhead, entries larger than a whole segment), 65490..65529 (encoded frame on both sides of the 64 KiB read buffer); batch shapes [big], [small,big], [big,small]; contents symbolic at first/last/boundary positions; read back live, after the next append and after reopen",
-                thorough="wider windows, 64-byte and 64 KiB segments"),
+    required_reach=["sizes-checked", "refused", "acknowledged"],
+    bounds=dict(quick="Data lengths 0..19 (every padding residue), 170..269 with 256-byte segments (segment size +/- frame overhead, entries larger than a whole segment), 65490..65529 (encoded frame on both sides of the 64 KiB read buffer); batch shapes [big], [small,big], [big,small]; contents symbolic at first/last/boundary positions; read back live, after the next append and after reopen; an entry whose ENCODED size is exactly 64 MiB (accepted, read back identically) and 64 MiB + 1 (must be refused, the refusal leaves the log empty and usable), stored alone",
+                thorough="wider windows, 64-byte and 64 KiB segments; encoded sizes 64 MiB - 1, 64 MiB, 64 MiB + 1 in all three batch shapes with 256-byte segments and alone in a 128 MiB segment"),
     assumptions=COMMON_ASSUME + ["sizes are enumerated (one path per size in the window), contents symbolic only at marked positions: list-mode byte arrays"],
-    outside=["the 64 MiB +/- 1 neighbourhood and everything between the windows: symbolic-length byte arrays (SMT array mode) are not built and 2^26-element list arrays are out of reach; by reading, lengths above MaxEntrySize are acknowledged and then unreadable (ErrTooBig is declared and never returned) - not demonstrated by this check", "batches above 2^31 bytes"],
+    outside=["everything between the windows: sizes are concrete per path (list-mode byte arrays; symbolic-length arrays are not built), so a size between the windows is not covered; the 2^26-element runs need about 21 GB of memory and 70 s per path, which is why only three sizes are taken there", "batches above 2^31 bytes"],
     level_text="Bounded symbolic execution of StoreLogs/GetLog through the real WAL, segment writer and reader for every size in the stated windows; the solver decides equality of what is read with what was written for all contents",
-    level_note="size windows enumerated, not symbolic; 64 MiB boundary not covered")
+    level_note="size windows enumerated, not symbolic")
 
 checks["C07"] = dict(
     runs=dict(
